@@ -235,7 +235,10 @@ Inductive op :=
 | ODeleteGroup (id : bytes)
 | OFetchCfg (t : bytes)
 | OUpdateCfg (c : cfg)
-| OMetadata (names : list bytes).
+| OMetadata (names : list bytes)
+(* not a Store method: InMemoryStore.Update / EtcdStore.refreshSnapshot replace the cluster
+   snapshot (brokers, topics with their partition counts); config, offset and group tables stay *)
+| OUpdate (brokers : Z) (topics : list (bytes * Z)).
 
 Definition metadata_of (s : inmem) (names : list bytes) : list (bytes * Z * Z) :=
   match names with
@@ -333,6 +336,7 @@ Definition im_step (s : inmem) (o : op) : inmem * res :=
   | OFetchCfg t => (s, im_fetch_cfg s t)
   | OUpdateCfg c => im_update_cfg s c
   | OMetadata names => (s, RMeta (metadata_of s names))
+  | OUpdate b ts => (mkInmem b ts (im_offsets s) (im_coff s) (im_groups s) (im_cfgs s), RErr ENone)
   end.
 
 (* ---------------------------------------------------------------- etcd store *)
@@ -462,6 +466,8 @@ Definition et_step (s : etcd) (o : op) : etcd * res :=
   | OFetchCfg t => (s, et_fetch_cfg s t)
   | OUpdateCfg c => et_update_cfg s c
   | OMetadata names => (s, RMeta (metadata_of (et_meta s) names))
+  | OUpdate b ts =>
+      (eset_meta s (mkInmem b ts (im_offsets (et_meta s)) (im_coff (et_meta s)) (im_groups (et_meta s)) (im_cfgs (et_meta s))), RErr ENone)
   end.
 
 (* ---------------------------------------------------------------- runs *)
@@ -561,6 +567,7 @@ Definition method_of (o : op) : store_method :=
   | OFetchGroup _ => M_FetchConsumerGroup | OListGroups => M_ListConsumerGroups
   | ODeleteGroup _ => M_DeleteConsumerGroup | OFetchCfg _ => M_FetchTopicConfig
   | OUpdateCfg _ => M_UpdateTopicConfig | OMetadata _ => M_Metadata
+  | OUpdate _ _ => M_Unknown
   end.
 
 Definition readonly_method (m : store_method) : bool :=
